@@ -11,6 +11,7 @@ import (
 	"unsafe"
 
 	"go.uber.org/zap"
+	"go.uber.org/zap/buffer"
 	"go.uber.org/zap/zapcore"
 
 	"verif/simsync"
@@ -571,6 +572,18 @@ type c10panicErr struct{}
 
 func (c10panicErr) Error() string { panic("c10: the Error method of a sink's error panics") }
 
+// c10failEnc: an encoder (a registered third-party one, say) that cannot
+// encode: EncodeEntry reports an error for every entry.
+type c10failEnc struct {
+	zapcore.Encoder
+	err error
+}
+
+func (e c10failEnc) Clone() zapcore.Encoder { return c10failEnc{e.Encoder.Clone(), e.err} }
+func (e c10failEnc) EncodeEntry(zapcore.Entry, []zapcore.Field) (*buffer.Buffer, error) {
+	return nil, e.err
+}
+
 func c10mkErr(kind int, text string) error {
 	switch kind {
 	case 3:
@@ -670,11 +683,20 @@ func runC10(c *Ctx) {
 		case 0:
 			s := mk(fmt.Sprintf("b%d", b))
 			hookFails := br.failing && f.Chance(5)
-			if br.failing && !hookFails {
+			encFails := br.failing && !hookFails && f.Chance(6)
+			if br.failing && !hookFails && !encFails {
 				setFail(s)
 			}
 			silent(s)
 			br.core = zapcore.NewCore(zapcore.NewJSONEncoder(encCfg()), zapcore.Lock(s), zapcore.DebugLevel)
+			if encFails {
+				// the failure is that of the core's encoder: nothing reaches the
+				// destination (not judged), the error is reported like a sink's
+				br.mode = 6
+				s.WritePlan = []zsim.Outcome{{}} // marks the sink as not judged
+				br.core = zapcore.NewCore(c10failEnc{zapcore.NewJSONEncoder(encCfg()), injErr}, zapcore.Lock(s), zapcore.DebugLevel)
+				c.R.Probe("a branch whose encoder fails")
+			}
 			if hookFails {
 				// the failure is that of a hook registered on a healthy core: the
 				// core's destination holds every entry, the hook's error is reported
@@ -932,7 +954,7 @@ func runC10(c *Ctx) {
 		}
 		if e.direct {
 			for _, br := range branches {
-				if br.failing && (br.mode == 0 || br.mode == 1 || br.mode == 4 || br.mode == 5) {
+				if br.failing && (br.mode == 0 || br.mode == 1 || br.mode == 4 || br.mode == 5 || br.mode == 6) {
 					if hostileErr {
 						if e.err == nil {
 							c.Fail("C10: Write on a tee does not return the errors of all its failing cores", "entry %d written directly to the tee: returned nil although a branch failed", e.id)
@@ -969,7 +991,7 @@ func runC10(c *Ctx) {
 			}
 		}
 		switch {
-		case br.mode == 0 || br.mode == 1 || br.mode == 4 || br.mode == 5:
+		case br.mode == 0 || br.mode == 1 || br.mode == 4 || br.mode == 5 || br.mode == 6:
 			want = len(entries) - nDirect // a direct Core.Write returns its error to the caller instead
 			if br.mult > 1 {
 				want *= br.mult
